@@ -29,6 +29,35 @@ def _flush_loop(st: ast.AST, src: T.Callable[[ast.AST], bool]) -> T.Optional[str
     return None
 
 
+def _returned_by(methods: T.Dict[str, ast.FunctionDef], name: str, x: str, depth: int) -> str:
+    """'' when the node `x` that received the pending whitespace in Parser.<name> is what the method returns, or - if `x` is a
+    parameter - what every calling parser method passes and returns (followed through two levels of helpers)."""
+    fn = methods[name]
+    qn = f'Parser.{name}'
+    ps = params_of(fn)[1:]
+    rets = [r for r in walk_no_nested(fn) if isinstance(r, ast.Return) and r.value is not None]
+    if x in ps and not any(isinstance(r.value, ast.Name) and r.value.id == x for r in rets):
+        if rets:
+            raise Undecided(f'{qn}: flushes into its parameter `{x}` and returns something else')
+        if depth >= 2:
+            raise Undecided(f'{qn}: flush helper nested more than two levels')
+        idx = ps.index(x)
+        for cname, cfn in methods.items():
+            for c in walk_no_nested(cfn):
+                if isinstance(c, ast.Call) and attr_chain(c.func) == f'self.{name}':
+                    if c.keywords or idx >= len(c.args) or not isinstance(c.args[idx], ast.Name):
+                        raise Undecided(f'Parser.{cname}: `{short(c)}`: the node handed to the flush helper is not a plain variable')
+                    bad = _returned_by(methods, cname, c.args[idx].id, depth + 1)
+                    if bad:
+                        return f'(via `{short(c)}` in Parser.{cname}) ' + bad
+        return ''
+    if not rets or not all(isinstance(r.value, ast.Name) for r in rets):
+        raise Undecided(f'{qn}: cannot tell whether the flushed node `{x}` is what `{short(rets[0]) if rets else "(no return)"}` returns')
+    if not all(r.value.id == x for r in rets):  # type: ignore[union-attr]
+        return f'flushes into `{x}`, which is not what every return statement of {qn} returns'
+    return ''
+
+
 def check_keepers(ctx: RuleCtx, model: NodeModel) -> None:
     """Every path of every append_whitespaces (and of WhitespaceNode's accumulator) keeps the token text."""
     mod = model.mod
@@ -117,12 +146,14 @@ def check_buffer(ctx: RuleCtx, model: NodeModel, primitive: str, wrapper: str) -
                         if x is None:
                             ok, why = False, f'is reached from `{short(pn.ast, 60)}` without a flush loop immediately before it'
                             continue
-                        # the receiving node is returned by this function (or is the function's accumulating block)
-                        rets = [r for r in walk_no_nested(fn) if isinstance(r, ast.Return)]
-                        if not rets or not all(isinstance(r.value, ast.Name) for r in rets):
-                            raise Undecided(f'{qn}: cannot tell whether the flushed node `{x}` is what `{short(rets[0]) if rets else "(no return)"}` returns')
-                        if not all(r.value.id == x for r in rets):  # type: ignore[union-attr]
-                            ok, why = False, f'flushes into `{x}`, which is not what every return statement returns'
+                        # the receiving node is returned by this function; when it is a parameter (flush helper), by every caller
+                        bad = _returned_by(methods, name, x, 0)
+                        if x in params_of(fn)[1:]:
+                            # a flush helper: every call of it is a flush point
+                            resets += sum(1 for cfn in methods.values() for c in walk_no_nested(cfn)
+                                          if isinstance(c, ast.Call) and attr_chain(c.func) == f'self.{name}') - 1
+                        if bad:
+                            ok, why = False, bad
                 ctx.require(ok, f'{qn}: reset `{short(w)}` directly follows a flush of every pending token into the returned node', mod, qn, w,
                             f'the buffer reset `{short(w)}` {why}: pending whitespace/comments would be dropped', w)
             elif isinstance(val, ast.Subscript) and _is_buf(val.value) and isinstance(val.slice, ast.Slice) and val.slice.upper is None \
@@ -132,7 +163,7 @@ def check_buffer(ctx: RuleCtx, model: NodeModel, primitive: str, wrapper: str) -
                 _check_slice(ctx, model, fn, qn, cfg, w, val.slice.lower.args[0].id, resetters)
             else:
                 raise Undecided(f'{qn}: buffer assignment `{short(w)}` is neither a reset nor a prefix slice')
-    ctx.floor('buffer resets', resets, 3)
+    ctx.floor('buffer flush points (resets, or calls of a flush helper)', resets, 3)
     ctx.floor('buffer prefix slices', slices, 1)
     ctx.note(f'methods that may reset the buffer: {sorted(resetters)}')
 
